@@ -447,7 +447,7 @@ class Nor(Logic):
 
         r = self.addOut("r", r)
 
-        mid = self.wire("Mid", lins[0].getWidth())
+        mid = self.wire("Mid", max([x.getWidth() for x in lins]))
         
         # save inputs/outputs for RTL generation
         self.r = r
@@ -480,7 +480,7 @@ class Nor2(Logic):
         self.b = self.addIn("b", b)
         self.r = self.addOut("r", r)
 
-        self.mid = self.wire("Mid", a.getWidth())
+        self.mid = self.wire("Mid", max(a.getWidth(), b.getWidth()))
 
         Or2(self, "Or", a, b, self.mid)
         Not(self, "Not", self.mid, r)
@@ -756,14 +756,22 @@ class Xor2(Logic):
         self.b = self.addIn("b", b)
         self.r = self.addOut("r", r)
 
-        mid = self.wire("Mid", a.getWidth())
-        xout = self.wire("XOut", a.getWidth())
-        yout = self.wire("YOut", a.getWidth())
+        w = max(a.getWidth(), b.getWidth())
+        mid = self.wire("Mid", w)
+        xout = self.wire("XOut", w)
+        yout = self.wire("YOut", w)
 
         Nand2(self, "NandMid", a, b, mid)
         Nand2(self, "NandX", a, mid, xout)
         Nand2(self, "NandY", b, mid, yout)
-        Nand2(self, "NandR", xout, yout, r)
+
+        if (r.getWidth() > w):
+            # the bits of r above the operands are zero, as in a ^ b
+            rout = self.wire("ROut", w)
+            Nand2(self, "NandR", xout, yout, rout)
+            Buf(self, "BufR", rout, r)
+        else:
+            Nand2(self, "NandR", xout, yout, r)
 
 
 class Xor(Logic):
